@@ -826,6 +826,12 @@ def _dedup_switch(ctx):
                 for kind, name in flow.roots(f, test):
                     if kind == "param":
                         origins |= flow.param_origins(f, name, {AC})
+            if any(len(o_) == 3 and "*args" in str(o_[2])
+                   for o_ in origins):
+                raise AnalysisError(
+                    f"{f.qual}: the flag that guards the per-chunk removal "
+                    "of duplicates arrives through *args / **kwargs "
+                    f"({sorted(origins)}); its origin cannot be read")
             ok = bool(gs) and origins == {("param", AC, "deduplication")} \
                 and all(pol for _t, pol in gs)
             ctx.check(ok, "C03c-dedup-switch", f,
@@ -882,23 +888,30 @@ def _cli_mapping(ctx):
     # options exist with the expected action
     p = prog.func("mokapot.config._parser")
     opts = {}
+    pT = Terms(DefUse(prog, p))
     for n in ast.walk(p.node):
         if isinstance(n, ast.Call) and isinstance(n.func, ast.Attribute) \
                 and n.func.attr == "add_argument":
-            names = [const_value(a) for a in n.args
-                     if isinstance(const_value(a), str)]
-            kws = {k.arg: k.value for k in n.keywords}
+            t_ = pT.of(n)
+            if t_[0] != "mcall":
+                continue
+            names = [a[1] for a in t_[3] if a[0] == "const"
+                     and isinstance(a[1], str)]
+            # keywords as the call receives them (a ** of a dictionary
+            # display is spread out by the term construction)
+            kws = dict(t_[4])
             for nm in names:
                 if nm.startswith("--"):
                     opts[nm[2:]] = kws
     for o in ("keep_decoys", "skip_deduplication", "skip_rollup",
               "peps_error"):
         kw = opts.get(o)
-        ok = kw is not None and const_value(kw.get("action")) == \
-            "store_true" and const_value(kw.get("default"), False) is False
+        ok = kw is not None and kw.get("action") == (
+            "const", "store_true") and kw.get(
+            "default", ("const", False)) == ("const", False)
         ctx.check(ok, "C03c-cli-flag-definition", p,
                   f"--{o} is an off-by-default switch",
-                  f"--{o}: {({k: ast.unparse(v) for k, v in kw.items() if k != 'help'}) if kw else 'missing'}",
+                  f"--{o}: {({k: show(v, 40) for k, v in kw.items() if k != 'help'}) if kw else 'missing'}",
                   node=p.node)
 
 
@@ -1306,9 +1319,14 @@ def _retained_rows(ctx):
                          ("pep_iterator", "peps"),
                          ("target_iterator", "targets")):
         e = b.get(formal)
-        cs = chunk_source(simp(items_as_subs(expand_const_comp(
-            Tw.of(e))))) if e is not None else None
+        from ..tutil import apply_partials
+        cs = chunk_source(apply_partials(simp(items_as_subs(
+            expand_const_comp(Tw.of(e)))))) if e is not None else None
         got[formal] = cs
+        if e is not None and cs is None:
+            raise AnalysisError(
+                f"{w.qual}: how {formal} is chunked is written in a form "
+                f"the rule does not read: {show(Tw.of(e), 100)}")
     ok_b = all(
         got[fm] is not None and got[fm][0] == ("attr", ("param", "self"), at)
         for fm, at in (("q_value_iterator", "qvals"),
